@@ -123,6 +123,7 @@ type Script struct {
 	EndMsg      string
 	EndState    string
 	LockStep    bool
+	AnyPosEOF   bool  // answer any dump request with EOF at once (handshake tests)
 	MicroDelays []int // microseconds to sleep before packet i (cyclic), nil = none
 	OnPacket    func(i int)
 }
@@ -159,11 +160,26 @@ type ConnLog struct {
 	acks        chan struct{}
 }
 
+// ConnSnap is a lock-free copy of a ConnLog.
+type ConnSnap struct {
+	Index       int
+	Cmds        []Cmd
+	PacketsSent int
+	BadResume   bool
+	PeerClosed  bool
+	QuitSeen    bool
+	FaultDone   []string
+	Finished    bool
+	HoldReached bool
+	WriteErr    string
+	AckTimeouts int
+}
+
 // Snapshot returns a copy safe to read.
-func (c *ConnLog) Snapshot() ConnLog {
+func (c *ConnLog) Snapshot() ConnSnap {
 	c.mu.Lock()
 	defer c.mu.Unlock()
-	return ConnLog{Index: c.Index, Cmds: append([]Cmd(nil), c.Cmds...), PacketsSent: c.PacketsSent, BadResume: c.BadResume,
+	return ConnSnap{Index: c.Index, Cmds: append([]Cmd(nil), c.Cmds...), PacketsSent: c.PacketsSent, BadResume: c.BadResume,
 		PeerClosed: c.PeerClosed, QuitSeen: c.QuitSeen, FaultDone: append([]string(nil), c.FaultDone...), Finished: c.Finished,
 		HoldReached: c.HoldReached, WriteErr: c.WriteErr, AckTimeouts: c.AckTimeouts}
 }
@@ -531,6 +547,12 @@ func (m *Master) dump(p *pconn, cl *ConnLog, scr *Script, d *DumpReq) {
 		m.Tr.Add("master-finished", int64(cl.Index), 0, "")
 	}
 
+	if scr.AnyPosEOF {
+		p.writePacket(eofPacket())
+		finish()
+		idle()
+		return
+	}
 	fi := -1
 	for i, f := range l.Files {
 		if f.Name == d.File {
